@@ -77,8 +77,8 @@ structure PyObj where
   repr : Str
   deriving Repr
 
-/-- one name of `dir(val)`: what `getattr(val, name)` gives (`none` = AttributeError), and — for the
-statement only, the code does not look — whether it is a data attribute (not a method) -/
+/-- one name of `dir(val)`: what `getattr(val, name)` gives (`none` = AttributeError), and whether it is a data attribute
+(`not callable(value)`: the repaired `dump` looks and leaves methods out) -/
 structure DirEntry where
   name : Str
   value : Option PyObj
@@ -104,6 +104,10 @@ def sendable (o : PyObj) : Val := if dumpable o.val then o.val else .str o.repr
 /-- `name.startswith("_") or name in ignored_attrs` -/
 def skipped (n : Str) : Bool := Gen.Vinegar.privatePrefix.isPrefixOf n || Gen.Vinegar.ignoredAttrs.contains n
 
+/-- is the `dir` entry left out of the attributes: a private or ignored name, or — measured by the generator
+(`Gen.Vinegar.skipsCallables`) — a value that is callable (`isData = false`: a method is not data) -/
+def dropped (d : DirEntry) : Bool := skipped d.name || (Gen.Vinegar.skipsCallables && !d.isData)
+
 /-- the `args` list `dump` builds: one copy of the normalised arguments per `dir` entry named `args` -/
 def walkArgs (e : ExcRec) : List DirEntry → List Val
   | [] => []
@@ -114,7 +118,7 @@ def walkAttrs : List DirEntry → List Val
   | [] => []
   | d :: ds =>
     if d.name == Gen.Vinegar.argsName then walkAttrs ds
-    else if skipped d.name then walkAttrs ds
+    else if dropped d then walkAttrs ds
     else match d.value with
       | none => walkAttrs ds
       | some o => .tuple [.str d.name, sendable o] :: walkAttrs ds
